@@ -133,6 +133,22 @@ def lean_audit(pid, theorems, module):
   return res, out
 
 
+class _Done:
+  def __init__(self, returncode, stdout, stderr):
+    self.returncode, self.stdout, self.stderr = returncode, stdout, stderr
+
+
+def _big_stack():
+  """The evaluator recurses on its fuel; give the driver process as much stack as the system allows."""
+  import resource
+  soft, hard = resource.getrlimit(resource.RLIMIT_STACK)
+  want = 1 << 30
+  try:
+    resource.setrlimit(resource.RLIMIT_STACK, (want if hard == resource.RLIM_INFINITY else min(want, hard), hard))
+  except (ValueError, OSError):
+    pass
+
+
 class Driver:
   """Client of the compiled Lean line-protocol driver."""
 
@@ -140,20 +156,43 @@ class Driver:
     if not os.path.exists(DRIVER):
       raise RuntimeError('Lean driver not built: ' + DRIVER)
 
-  def ask_many(self, reqs, timeout=1800):
-    if not reqs:
-      return []
-    data = '\n'.join(json.dumps(r, ensure_ascii=False) for r in reqs) + '\n'
-    p = subprocess.run([DRIVER], input=data.encode('utf-8'), stdout=subprocess.PIPE,
-                       stderr=subprocess.PIPE, timeout=timeout)
-    if p.returncode != 0:
-      raise RuntimeError('driver failed: %s' % p.stderr.decode('utf-8', 'replace')[:2000])
-    lines = p.stdout.decode('utf-8').split('\n')
-    if lines and lines[-1] == '':
-      lines.pop()
-    if len(lines) != len(reqs):
-      raise RuntimeError('driver returned %d lines for %d requests' % (len(lines), len(reqs)))
-    return [json.loads(l) for l in lines]
+  def ask_many(self, reqs, timeout=None):
+    """One answer per request. A request on which the driver process dies (stack overflow of the
+    evaluator on a pathological input) is answered {'error': 'model-crash ...'} and the rest is retried."""
+    out = []
+    todo = list(reqs)
+    timeout = timeout or int(os.environ.get('VERIF_DRIVER_TIMEOUT', '150')) + len(reqs) // 50
+    while todo:
+      data = '\n'.join(json.dumps(r, ensure_ascii=False) for r in todo) + '\n'
+      proc = subprocess.Popen([DRIVER], stdin=subprocess.PIPE, stdout=subprocess.PIPE, stderr=subprocess.PIPE,
+                              preexec_fn=_big_stack)
+      try:
+        so, se = proc.communicate(data.encode('utf-8'), timeout=timeout)
+        p = _Done(proc.returncode, so, se)
+      except subprocess.TimeoutExpired:
+        proc.kill()
+        so, se = proc.communicate()
+        p = _Done(-9, so, b'timeout after %ds' % timeout)
+      lines = p.stdout.decode('utf-8', 'replace').split('\n')
+      if lines and lines[-1] == '':
+        lines.pop()
+      if p.returncode == 0:
+        if len(lines) != len(todo):
+          raise RuntimeError('driver returned %d lines for %d requests' % (len(lines), len(todo)))
+        out += [json.loads(l) for l in lines]
+        break
+      good = []
+      for l in lines[:len(todo)]:
+        try:
+          good.append(json.loads(l))
+        except ValueError:
+          break
+      if len(good) >= len(todo):
+        raise RuntimeError('driver failed: %s' % p.stderr.decode('utf-8', 'replace')[:2000])
+      out += good
+      out.append({'error': 'model-crash: ' + p.stderr.decode('utf-8', 'replace').strip()[:200]})
+      todo = todo[len(good) + 1:]
+    return out
 
   def ask(self, req):
     return self.ask_many([req])[0]
